@@ -1,5 +1,5 @@
 CONSTANTS
-  Families = {"single", "noshellq", "order", "quirk", "shell", "streams"}
+  Families = {"single", "noshellq", "order", "quirk", "shell", "streams", "jobs"}
   MaxGrow = 0
   MinElems = 99
 INIT Init
